@@ -315,3 +315,151 @@ def c17(tier):
 
 
 PROPS['C17'] = c17
+
+
+def c18_structs(tier):
+    """documented cross-section: every kind x {default, debug, builder, arrays, enums, arbitrary-int base, multi-range}"""
+    from . import sets, build as Bd
+    import dataclasses
+    step = 6 if tier == 'quick' else 1
+    picked = []
+    srcs = [("contig", sets.contig_set('quick')), ("arr", sets.arr_set('quick')), ("nc", sets.nc_set('quick')), ("signed", sets.signed_set('quick')),
+            ("custom", sets.custom_set('quick')), ("builder", sets.builder_structs('quick')), ("debug", sets.debug_structs('quick')),
+            ("mix", sets.mix_set('quick')), ("consts", sets.consts_set('quick'))]
+    for name, ss in srcs:
+        st = max(1, len(ss) // 40) if tier == 'quick' else max(1, len(ss) // 400)
+        for k, s in enumerate(ss):
+            if k % st:
+                continue
+            cap = 10 if tier == 'quick' else 24
+            fsel = list(s.fields) if len(s.fields) <= cap else list(s.fields[::max(1, len(s.fields) // cap)][:cap])
+            s2 = dataclasses.replace(s, fields=fsel, family=f"DOC:{name}")
+            if s2.has_builder and len(s2.fields) != len(s.fields):
+                s2.has_builder = False
+            picked.append(s2)
+    Bd.name_structs(picked, prefix="D")
+    for s in picked:
+        s.name = "S"
+    return picked
+
+
+REGIMES = {
+    "no_std": "#![no_std]\n",
+    "missing_docs": "#![deny(missing_docs)]\n",
+    "forbid_unsafe": "#![forbid(unsafe_code)]\n",
+    "all": "#![no_std]\n#![deny(missing_docs)]\n#![forbid(unsafe_code)]\n",
+}
+
+
+def c18(tier):
+    from . import rustgen as R, sets
+    import subprocess, re
+    chk = core.Check('C18', tier)
+    chk.assumptions = ASSUME_DECL[:1] + ["a #![no_std] crate cannot name std on any target, so compiling for the host suffices",
+                                         "rustc's builtin derives emit `unsafe impl` under #[automatically_derived]; those are the compiler's, not the macro's, and are excluded from the unsafe scan",
+                                         "`syn` parses the -Zunpretty=expanded output (a parse failure is a machinery failure)"]
+    structs = c18_structs(tier)
+    arts = D.carrier()
+    # documented enum / nested types used by the fields, plus stand-alone enums in all three exhaustive modes
+    enums, inners = R.required_types(structs)
+    eds = [e for k, e in enumerate(sets.enum_set('quick')) if k % (40 if tier == 'quick' else 4) == 0]
+    for e in eds:
+        enums[e.name] = e
+    types = []
+    for name in sorted(enums):
+        types.append(R.enum_decl(enums[name], derive_debug=True, doc=True))
+    for n, _ in sorted(inners):
+        types.append(R.inner_decl(n, debug=True, doc=True))
+    types_txt = "\n".join(types) + "\n"
+    items = [D.Item(j, R.struct_decl(s, doc=True)) for j, s in enumerate(structs)]
+    base_prelude = "//! documented crate\n#![allow(dead_code, unused_imports, deprecated, non_camel_case_types, non_upper_case_globals, unused_parens)]\nuse bitbybit::{bitenum, bitfield};\nuse arbitrary_int::*;\n"
+    files = []
+    for rname, attrs in REGIMES.items():
+        prelude = attrs + base_prelude + types_txt
+        keep = [] if rname == "all" else None
+        errs, unatt = D.compile_items(arts, items, f"c18-{rname}", emit="metadata", nshards=16, prelude=prelude, mod_doc=True, cap_lints=False, keep_files=keep)
+        if keep:
+            files = keep
+        chk.transitions += len(items)
+        chk.validated += len(items)
+        for j, s in enumerate(structs):
+            if j in errs:
+                text = R.struct_decl(s, doc=True)
+                chk.add_violation(f"[{rname}] {text}", "regime_" + rname, f"does not compile under {attrs.strip()}: {text} :: {errs[j][0]}",
+                                  decl_replay(text, "accept", prelude=prelude, flags=["--cap-lints", "forbid"]))
+        for u in unatt[:5]:
+            # errors in the shared type prelude (enums / nested bitfields) are verdicts too
+            chk.add_violation(f"[{rname}] prelude: {u[:200]}", "regime_" + rname, f"generated code for the documented enum/nested types does not compile under {attrs.strip()}: {u}",
+                              decl_replay(types_txt, "accept", prelude=attrs + base_prelude, flags=["--cap-lints", "forbid"]))
+        chk.per_family[f"regime:{rname}"] = {"fields": sum(len(s.fields) for s in structs), "transitions": len(items), "states": len(items), "violations": len(errs)}
+    # expansion scan
+    exp_dir = os.path.join(B.WORK, "declmc", "c18-expanded")
+    os.makedirs(exp_dir, exist_ok=True)
+    expanded = []
+
+    def expand(fn):
+        out = os.path.join(exp_dir, os.path.basename(fn))
+        cmd = ["rustc", "--edition", "2021", "--crate-type", "lib", "-Zunpretty=expanded", "-L", f"dependency={arts['deps']}", "--extern", f"bitbybit={arts['bitbybit']}",
+               "--extern", f"arbitrary_int={arts['arbitrary_int']}", fn]
+        p = subprocess.run(cmd, capture_output=True, text=True, env=dict(os.environ, RUSTC_BOOTSTRAP="1"))
+        if p.returncode != 0:
+            return None, p.stderr[-800:]
+        open(out, "w").write(p.stdout)
+        return out, None
+    from concurrent.futures import ThreadPoolExecutor
+    scan_ok = not any(v for v in chk.violations)
+    with ThreadPoolExecutor(16) as ex:
+        for out, err in ex.map(expand, files):
+            if out is None:
+                if scan_ok:
+                    raise B.MachineryError("rustc -Zunpretty=expanded failed on a file that compiles: " + str(err))
+                continue
+            expanded.append(out)
+    if expanded:
+        scanner = os.path.join(B.TARGET, "release", "expscan")
+        if not os.path.exists(scanner):
+            p = subprocess.run(["cargo", "build", "--offline", "--release"], cwd=os.path.join(B.ENGINE, "expscan"), env=B.env(), capture_output=True, text=True)
+            if p.returncode != 0:
+                raise B.MachineryError("expscan does not build: " + p.stderr[-2000:])
+        p = subprocess.run([scanner] + expanded, capture_output=True, text=True)
+        if p.returncode != 0:
+            raise B.MachineryError("expscan failed: " + p.stderr[-2000:])
+        res = json.loads(p.stdout)
+        tot_items = tot_paths = derived = 0
+        for r in res:
+            if not r.get("ok"):
+                raise B.MachineryError(f"syn could not parse the expanded output {r['file']}: {r.get('error')}")
+            tot_items += r["items"]
+            tot_paths += r["paths"]
+            derived += r["unsafe_in_derived"]
+            if r["hits"]:
+                lines = open(r["file"]).read().split("\n")
+                for h in r["hits"][:20]:
+                    mod = None
+                    for ln in range(min(h["line"], len(lines)) - 1, -1, -1):
+                        m = re.search(r"pub mod m(\d+)\b", lines[ln])
+                        if m:
+                            mod = int(m.group(1))
+                            break
+                    text = R.struct_decl(structs[mod], doc=True) if mod is not None and mod < len(structs) else "(type prelude)"
+                    chk.add_violation(f"expansion {h['kind']} {h['what']} :: {text}", "expansion_" + h["kind"],
+                                      f"generated code contains {h['kind']}: {h['what']} (expanded line {h['line']}: {lines[h['line'] - 1].strip()[:160] if 0 < h['line'] <= len(lines) else ''}) :: {text}",
+                                      {"engine": "expscan", "text": text, "hit": h})
+        chk.transitions += tot_paths
+        chk.validated += tot_paths
+        chk.extra.update({"expanded_items_scanned": tot_items, "paths_scanned": tot_paths, "unsafe_impls_in_compiler_derives_ignored": derived})
+        if tot_paths < 1000:
+            core.vacuous("expansion scan saw almost no paths")
+    chk.states += len(structs) + len(enums) + len(inners)
+    chk.programs += len(structs) * len(REGIMES)
+    chk.distinct_outcomes = len(set(s.family for s in structs))
+    for j in (0, len(structs) // 2, len(structs) - 1):
+        chk.sample({"declaration": R.struct_decl(structs[j], doc=True)[:600], "regimes": list(REGIMES), "verdict": "compiles in all"})
+    chk.extra.update({"structs": len(structs), "enums": len(enums), "nested_types": len(inners)})
+    chk.bounds.append("documented cross-section: every " + ("k-th" if tier == 'quick' else "") + " struct of the contig/array/non-contiguous/signed/custom/builder/debug/mixed/default-form sets (fields truncated to 10/24), "
+                      "all enum types they use plus stand-alone bitenums in all three exhaustive modes; each compiled under #![no_std], #![deny(missing_docs)], #![forbid(unsafe_code)] and all three; "
+                      "-Zunpretty=expanded output scanned with syn for unsafe (outside #[automatically_derived]), std/alloc paths, absolute paths outside core/arbitrary_int, unexpanded macros")
+    return chk.finish()
+
+
+PROPS['C18'] = c18
